@@ -59,7 +59,9 @@ class HashableNdarray:
         self.__copy = copy
         # Negative and positive zeros are equal but have different bytes:
         # adding zero maps both of them to the positive zero before hashing.
-        hashed_array = array + 0.0 if array.dtype.kind in "fc" else array
+        # Integer and float arrays with equal components are equal too:
+        # adding zero also maps the integer arrays to float ones before hashing.
+        hashed_array = array + 0.0 if array.dtype.kind in "fciu" else array
         self.__hash = int(xxh3_64_hexdigest(hashed_array.view(uint8)), 16)  # type: ignore[arg-type]
         self.__array = np_array(array) if copy else array
 
